@@ -59,6 +59,34 @@ EXTRA = {
              "executing both halves of a pair under the same configuration and clock script.",
         technique="TLA+ action property model-checked on the implementation specs; metamorphic trace pairs validated by a TLA+ pair monitor with TLC",
         ref="5 C15"),
+    "C02": dict(
+        text="spec/SyncConc.tla interleaves the operators of SyncCache.tla at the switch points the code marks with "
+             "verif::point (map access, housekeeping decision, send, mutex acquisition, every queued record, the two "
+             "scans, publication). TLC explores every interleaving of a catalogue of two- and three-thread race "
+             "programs with the C02 monitor (Allowed_C02: a get returns nothing or a value not superseded by a write "
+             "that returned before the get began; per-reader per-writer monotonicity; the final contents) evaluated on "
+             "every invoke / return. The same schedules are then forced on real threads by a controller that lets "
+             "exactly one thread run between two points (one run per edge of the interleaving graph, the parked tags, "
+             "residents and queue lengths compared with the model), followed by seeded random schedules and by "
+             "free-running threads whose stamped logs TLC judges with the same monitor (spec/TraceConc.tla).",
+        note="Interleavings are explored at switch-point granularity: races inside DashMap, crossbeam-channel, triomphe "
+             "or between two atomics touched within one step are not explored. The monitor is weaker than "
+             "linearizability (a miss is always allowed). Trusted: TLC, the controller and its logging.",
+        technique="TLA+ interleaving model checked with TLC; TLC-generated schedules replayed on real threads through cfg-guarded switch points; recorded invoke/return traces validated by a TLA+ monitor with TLC",
+        ref="5 C02"),
+    "C09": dict(
+        text="On spec/SyncConc.tla with scaled queues (write channel of 2, flush point 2) TLC checks, for every "
+             "interleaving of the race programs, that some thread can always move until all have finished "
+             "(NoDeadlock) and that every run finishes under weak fairness of each thread (<>fin), including programs "
+             "that fill the write channel. On the code: every schedule is executed with a step budget and a "
+             "release-then-watchdog rule (a run that does not finish is a Timeout event, which the monitor never "
+             "accepts), and un-synced bursts of thousands of operations by 1 and 8 threads run in both housekeeping "
+             "regimes; every operation must return and maintenance must still drain the queues afterwards.",
+        note="Wall-clock limits (120 s for bursts that normally take milliseconds) are applied only to free-running "
+             "bursts; scheduled runs use step counts. Liveness is checked on the unconstrained finite graph of each "
+             "program. Trusted: TLC, the controller.",
+        technique="TLC deadlock/liveness check of the TLA+ interleaving model; schedules replayed on real threads with step budgets; burst traces validated by TLC",
+        ref="5 C09"),
 }   # filled by later rounds: property -> dict(text=..., note=..., technique=..., category=...)
 
 
